@@ -29,7 +29,7 @@ PSK = bytes(range(32))
 PSK_B64 = base64.b64encode(PSK).decode()
 
 USER_FAULTS = ("force", "disconnect", "cancel", "cmd", "reuse")
-NET_FAULTS = ("eof", "rst", "garbage01", "garbage", "bad_pb", "peer_disconnect", "sendfail", "writeraise", "silence", "benign")
+NET_FAULTS = ("eof", "rst", "etimedout", "garbage01", "garbage", "bad_pb", "peer_disconnect", "sendfail", "writeraise", "silence", "benign")
 
 
 class Obs:
@@ -321,6 +321,8 @@ class Runner:
             conn.eof(delay)
         elif kind == "rst":
             conn.rst(delay)
+        elif kind == "etimedout":
+            conn.rst(delay, exc=TimeoutError(110, "Connection timed out"))   # ETIMEDOUT from the kernel: builtin TimeoutError (= asyncio.TimeoutError)
         elif kind == "garbage01":
             conn.send_raw(b"\x01\x00\x00" if not noise else b"\x00\x00\x01", delay)  # 0x01 preamble to plaintext; plaintext-looking to noise
         elif kind == "garbage":
